@@ -220,7 +220,81 @@ func applyLayout(kind string, text []byte, l Layout, recLines []int, seqPrefix s
 	return buf.Bytes()
 }
 
+// C04Group: several layout cases read by independent readers on different
+// goroutines (clients of the simulator, which switches at every call into a
+// medium and watches the woven packages' shared state).
+type C04Group struct {
+	Kinds []string  `json:"kinds"`
+	Plans []C04Plan `json:"plans"`
+}
+
+func runC04Group(t *testing.T, c *Case, o RunOpts) *Result {
+	noteCase(c)
+	defer progress.Add(1)
+	var g C04Group
+	if err := json.Unmarshal(c.Plan, &g); err != nil {
+		return &Result{ToolErr: err.Error()}
+	}
+	return execSim(t, c, o, 400000, false, func(sim *simrt.Sim) func() {
+		yield := func() { sim.Yield("medium") }
+		for i := range g.Plans {
+			i := i
+			sim.Client(fmt.Sprintf("reader%d", i), func() {
+				res := &Result{}
+				c04Body(g.Kinds[i], &g.Plans[i], res, yield)
+				if v := res.Viol; v != nil {
+					sim.Fail(v.Class, v.Site+"-concurrent-instances", fmt.Sprintf("%d independent readers on different goroutines, reader %d: %s", len(g.Plans), i, v.Text))
+				}
+			})
+		}
+		return nil
+	})
+}
+
+func genC04Group(r *simrt.RNG) *Case {
+	var g C04Group
+	for n := r.Range(2, 3); n > 0; n-- {
+		c := genC04(r)
+		var pl C04Plan
+		json.Unmarshal(c.Plan, &pl)
+		if pl.Seq != nil {
+			if len(pl.Seq.Recs) > 3 {
+				pl.Seq.Recs = pl.Seq.Recs[:3]
+			}
+			for i := range pl.Seq.Recs {
+				rec := &pl.Seq.Recs[i]
+				if len(rec.Letters) > 300 {
+					rec.Letters = rec.Letters[:300]
+					if len(rec.Quals) > 300 {
+						rec.Quals = rec.Quals[:300]
+					}
+				}
+			}
+		} else {
+			if len(pl.Feat.Beds) > 3 {
+				pl.Feat.Beds = pl.Feat.Beds[:3]
+			}
+			if len(pl.Feat.Items) > 3 {
+				pl.Feat.Items = pl.Feat.Items[:3]
+			}
+			for i := range pl.Feat.Items {
+				if len(pl.Feat.Items[i].Letters) > 300 {
+					pl.Feat.Items[i].Letters = pl.Feat.Items[i].Letters[:300]
+				}
+			}
+		}
+		pl.Delivery = simio.NoFault([]string{"all", "uniform", "one"}[r.Intn(3)], r.Uint64())
+		g.Kinds = append(g.Kinds, c.Kind)
+		g.Plans = append(g.Plans, pl)
+	}
+	return &Case{Prop: "C04", Kind: "group", Plan: marshalPlan(g),
+		Sched: PickStrategy(r, 400, []string{"client:"}, nil)}
+}
+
 func runC04(t *testing.T, c *Case, o RunOpts) *Result {
+	if c.Kind == "group" {
+		return runC04Group(t, c, o)
+	}
 	noteCase(c)
 	defer progress.Add(1)
 	var pl C04Plan
@@ -228,7 +302,14 @@ func runC04(t *testing.T, c *Case, o RunOpts) *Result {
 		return &Result{ToolErr: err.Error()}
 	}
 	res := &Result{Hash: planHash(c)}
-	site := "c04-" + c.Kind
+	c04Body(c.Kind, &pl, res, nil)
+	return res
+}
+
+// c04Body judges one layout case; onRead, if set, is the medium's yield point.
+func c04Body(kind string, plp *C04Plan, res *Result, onRead func()) *Result {
+	pl := *plp
+	site := "c04-" + kind
 	if pl.Seq != nil {
 		sp := pl.Seq
 		sp.expand()
@@ -260,6 +341,7 @@ func runC04(t *testing.T, c *Case, o RunOpts) *Result {
 		}
 		tt := applyLayout(sp.Format, text, pl.Layout, recLines, sp.SeqPrefix)
 		src := simio.NewSource(tt, pl.Delivery)
+		src.OnRead = onRead
 		got, v := readSeqs(sp, src, len(sp.Recs)+2)
 		res.Steps = src.Reads
 		res.Trivial = len(sp.Recs) == 0
@@ -304,6 +386,7 @@ func runC04(t *testing.T, c *Case, o RunOpts) *Result {
 	}
 	tt := applyLayout(fp.Format, text, pl.Layout, nil, "")
 	src := simio.NewSource(tt, pl.Delivery)
+	src.OnRead = onRead
 	got, v := readFeats(fp, src, n+2)
 	res.Steps = src.Reads
 	res.Trivial = n == 0
@@ -327,6 +410,9 @@ func runC04(t *testing.T, c *Case, o RunOpts) *Result {
 }
 
 func shrinkC04(c *Case) []*Case {
+	if c.Kind == "group" {
+		return nil
+	}
 	var pl C04Plan
 	json.Unmarshal(c.Plan, &pl)
 	var out []*Case
@@ -401,6 +487,9 @@ func init() {
 				w.Report(h, runC04(t, h, RunOpts{}))
 			}
 			c := genC04(r)
+			if r.Intn(15) == 0 {
+				c = genC04Group(r)
+			}
 			w.Report(c, runC04(t, c, RunOpts{}))
 		},
 		Run:    runC04,
